@@ -39,6 +39,8 @@ func (pass *Unspec) Process(schemas []*ast.Schema) ([]*ast.Schema, error) {
 	visitor := &Visitor{
 		OnRef:         pass.processRef,
 		OnConstantRef: pass.processConstantRef,
+		OnDisjunction: pass.processDisjunction,
+		OnStruct:      pass.processStruct,
 	}
 
 	newSchemas, err := visitor.VisitSchemas(schemas)
@@ -106,4 +108,50 @@ func (pass *Unspec) processSchema(schema *ast.Schema) *ast.Schema {
 	})
 
 	return schema
+}
+
+// discriminator mappings name objects of the schema they are found in: they follow the rename too
+func (pass *Unspec) processDisjunction(visitor *Visitor, schema *ast.Schema, def ast.Type) (ast.Type, error) {
+	def.Disjunction.DiscriminatorMapping = pass.renameInMapping(schema.Package, def.Disjunction.DiscriminatorMapping)
+
+	var err error
+	for i, branch := range def.Disjunction.Branches {
+		def.Disjunction.Branches[i], err = visitor.VisitType(schema, branch)
+		if err != nil {
+			return ast.Type{}, err
+		}
+	}
+
+	return def, nil
+}
+
+func (pass *Unspec) processStruct(visitor *Visitor, schema *ast.Schema, def ast.Type) (ast.Type, error) {
+	var err error
+	for i, field := range def.Struct.Fields {
+		def.Struct.Fields[i], err = visitor.VisitStructField(schema, field)
+		if err != nil {
+			return ast.Type{}, err
+		}
+	}
+
+	// the mapping of a disjunction that was turned into a struct is kept as a hint
+	if disjunction, ok := def.Hints[ast.HintDiscriminatedDisjunctionOfRefs].(ast.DisjunctionType); ok {
+		disjunction.DiscriminatorMapping = pass.renameInMapping(schema.Package, disjunction.DiscriminatorMapping)
+		def.Hints[ast.HintDiscriminatedDisjunctionOfRefs] = disjunction
+	}
+
+	return def, nil
+}
+
+func (pass *Unspec) renameInMapping(pkg string, mapping map[string]string) map[string]string {
+	newMapping := make(map[string]string, len(mapping))
+	for discriminator, typeName := range mapping {
+		if newName, found := pass.newNameFor(pkg, typeName); found {
+			typeName = newName
+		}
+
+		newMapping[discriminator] = typeName
+	}
+
+	return newMapping
 }
